@@ -51,10 +51,14 @@ package withstack
 //@ spec func olsFn(e error) string
 //@ spec func olsOk(e error) bool
 
+// the results are named (assumed: deterministic functions of the error); what is verified is the
+// innermost-first rule: whenever the direct cause (Cause() or Unwrap(), as errbase.UnwrapOnce sees
+// it) has a source, that source is the answer
 //@ func GetOneLineSource
-//@   props C15
-//@   trusted "naming only: file/line/function/ok are deterministic functions of the error (recursive walk over the direct-cause chain; its body is not re-verified here)"
-//@   ensures file == olsFile(err) && line == olsLine(err) && fn == olsFn(err) && ok == olsOk(err)
+//@   props C15 C16 C11
+//@   requires err != nil
+//@   assumes file == olsFile(err) && line == olsLine(err) && fn == olsFn(err) && ok == olsOk(err)
+//@   ensures cause1(err) != nil && olsOk(cause1(err)) ==> file == olsFile(cause1(err)) && line == olsLine(cause1(err)) && fn == olsFn(cause1(err)) && ok
 
 //@ func GetReportableStackTrace
 //@   props C15
